@@ -33,12 +33,24 @@ func (db *DatabaseContext) DeleteRole(ctx context.Context, name string, purge bo
 		return base.ErrNotFound
 	}
 
+	// Purging removes the role document and doesn't require a sequence
+	if purge {
+		return authenticator.DeleteRole(role, purge, 0)
+	}
+
 	seq, err := db.sequences.nextSequence(ctx)
 	if err != nil {
 		return err
 	}
 
-	return authenticator.DeleteRole(role, purge, seq)
+	err = authenticator.DeleteRole(role, purge, seq)
+	// For timeout errors, the write may or may not have succeeded so we cannot release the sequence as unused
+	if err != nil && !base.IsTimeoutError(err) {
+		if releaseErr := db.sequences.releaseSequence(ctx, seq); releaseErr != nil {
+			base.InfofCtx(ctx, base.KeyAuth, "Error releasing unused sequence %d after failed delete of role %s: %v", seq, base.UD(name), releaseErr)
+		}
+	}
+	return err
 }
 
 // UpdatePrincipal updates or creates a principal from a PrincipalConfig structure.
